@@ -1,6 +1,6 @@
 import ast
 from collections import defaultdict
-from typing import Dict, List, Optional, cast
+from typing import Dict, List, Optional, Set, cast
 
 from graphql import (
     GraphQLEnumType,
@@ -160,6 +160,7 @@ class InputTypesGenerator:
             name=definition.name, base_names=[BASE_MODEL_CLASS_NAME]
         )
 
+        used_names: Set[str] = set()
         for lineno, (org_name, field) in enumerate(definition.fields.items(), start=1):
             name = process_name(
                 org_name,
@@ -169,6 +170,11 @@ class InputTypesGenerator:
                 trim_leading_underscore=True,
                 handle_pydantic_resrved_field_names=True,
             )
+            # two GraphQL fields mangled to one Python name (fooBar / foo_bar) stay two
+            # fields: the later one gets "_" appended, its alias keeps the GraphQL name
+            while name in used_names:
+                name += "_"
+            used_names.add(name)
             annotation, field_type = parse_input_field_type(
                 field.type, custom_scalars=self.custom_scalars
             )
